@@ -6,6 +6,7 @@ import (
 	"bytes"
 	"encoding/json"
 	"fmt"
+	"runtime/debug"
 	"strings"
 
 	"github.com/vapourismo/knx-go/knx/knxnet"
@@ -426,6 +427,8 @@ func appOnly(vs []Val) []Val {
 // Run / Replay
 
 func runC15(r *enumlib.Run) {
+	// the live heap is a few megabytes and every case allocates: collect less often
+	defer debug.SetGCPercent(debug.SetGCPercent(800))
 	c := newCollector()
 	shared := c02Spaces(r.Thorough())
 	spaces := append(shared, c15Spaces(r.Thorough())...)
